@@ -8,7 +8,7 @@ PROP = "C08"
 
 LETTERS = ["ß", "ﬁ", "İ", "ŉ", "Ж", "é", "ö", "é", "日", "👍", "ǆ"]
 MOTIONS = ["h", "l", "w", "b", "e", "W", "B", "E", "ge", "0", "^", "$", "j", "k", "G", "gg", "fa", "Fo", "t ", "T.", ";", ",", "%", "{", "}",
-           "2w", "3l", "2j", "2e", "3h", "2b"]
+           "2w", "3l", "2j", "2e", "3h", "2b", "(", ")", "2)", "2(", "2}", "2{"]
 TEXTOBJS = gen.TEXTOBJS
 REGS = ["", "", "", '"a', '"b', '"A', '"B', '"z', '"Z']
 REPL = ["Z", "q", "ö", "日", "é", "👍", ".", "ß"]
@@ -73,7 +73,8 @@ def command(r):
     if r.random() < 0.5:
         return r.choice(["h", "l", "3l", "2h", "0", "^", "$", "2$", "gg", "G", "3|", "|", "A<esc>", "I<esc>", "x", "X", "d0", "d$", "dl", "dh", "d^", "vl", "v$", "vh",
                          "w", "b", "e", "W", "B", "E", "2w", "3b", "2e", "2W", "3E", "2B", "dw", "db", "de", "dW", "cwX<esc>", "c2wY<esc>", "cW!<esc>", "yw", "ye", "g~w", "gUe",
-                         "ge", "gE", "2ge", "dge", "vge", "fa", "Fa", "ta", "To", "2fa", ";", ",", "dfa", "dTo", "diw", "daw", "diW", "yaW", "ciwX<esc>", "%", "{", "}"])
+                         "ge", "gE", "2ge", "dge", "vge", "fa", "Fa", "ta", "To", "2fa", ";", ",", "dfa", "dTo", "diw", "daw", "diW", "yaW", "ciwX<esc>", "%", "{", "}",
+                         "(", ")", "2)", "3(", "d)", "d(", "y)", "c)X<esc>", "dip", "dap", "yip", "2dap", "cipX<esc>", "d}", "d{", "2}", "y{"])
     return r.choice(MOTIONS)
 
 
@@ -421,6 +422,12 @@ def run(tier, seed, replay=None):
                     xreqs.append({"op": "paragraph", "gs": gs, "cur": t["cur"]["value"], "excl": t["cur"]["exclusive"], "fwd": mm.group(2) == "Forward",
                                   "count": int(mm.group(1)), "has_verb": t["verb"] is not None})
                     xmeta.append((c, t, "paragraph", None))
+                mm = re.search(r"motion=Some\(MotionCmd\((\d+), TextObj\(Sentence\((Forward|Backward)\)\)\)\) flags=", t["cmd"])
+                if mm:
+                    skind = lambda g: 2 if g == "\n" else 1 if g in (" ", "\t") else 3 if g in (".", "!", "?") else 4 if g in (")", "]", '"', "'") else 0
+                    xreqs.append({"op": "sentence", "k": [skind(g) for g in gs], "cur": t["cur"]["value"], "count": int(mm.group(1)),
+                                  "fwd": mm.group(2) == "Forward", "has_verb": t["verb"] is not None})
+                    xmeta.append((c, t, "sentence", None))
                 mm = re.search(r"motion=Some\(MotionCmd\((\d+), TextObj\(WholeParagraph\((Inside|Around)\)\)\)\) flags=", t["cmd"])
                 if mm and t["verb"] is not None and not (t["sel_mode"] and t["sel_range"]):
                     plines, pl = [], []
